@@ -413,6 +413,20 @@ theorem C14_fn_add_funding (xext : Set → List (TxIn Txid) → Set)
   cases h1 : m.state.funding_txids.isEmpty <;>
     cases h2 : (m.state.funding_txids.length == m.state.funding_vouts.length) <;>
     simp [Rs.assert, h1, h2, ChainMonitorBase.add_funding_inputs, Except.map] <;> rfl
+
+omit [DecidableEq Txid] [DecidableEq BlockHash] in
+/-- `ChainMonitorBase::diagnostic` is `State::diagnostic` of the shared state; an unconfirmed channel reports the
+    hold time `MIN_DEPTH` = 100 -/
+theorem C14_fn_diagnostic (b : ChainMonitorBase Txid Set ChannelId) (c : Bool) :
+    b.diagnostic c = b.state.diagnostic c ∧
+    (b.state.funding_height = none → b.state.diagnostic c = .ok "UNCOMFIRMED hold till funding doublespent + 100") := by
+  constructor
+  · unfold ChainMonitorBase.diagnostic
+    cases b.state.diagnostic c <;> rfl
+  · intro h
+    unfold State.diagnostic
+    rw [h]
+    rfl
 end
 
 /-! ### non-vacuity: a synced monitor with a registered funding outpoint sees the funding transaction in a block, by both
